@@ -41,6 +41,7 @@ import Fbr.Lemmas.XportFuse2
 import Fbr.Lemmas.XportChain
 import Fbr.Lemmas.XportStart
 import Fbr.Lemmas.XportCThm
+import Fbr.Lemmas.XportFuseThm
 
 namespace Fbr.Thm.C04
 open Fbr.Xport
@@ -428,19 +429,93 @@ theorem fuse_commit_is_concatenation (f : FuseW) (w : World) (other : Option Fus
       ∧ (FuseW.commit f w other).2.mem = w.mem :=
   fcommit_spec f w other hb
 
-/-- **Split header/data writers on /dev/fuse committed together**: fresh writer, split at `k`,
-    ANY data into the second part, ANY header into the first (both fitting), `commit(second)`:
-    exactly one record reaches the descriptor and it is `header ++ data`.
-    PARTIAL: one data write and one header write, data first; FuseDevWriter theorems are per
-    operation (invariant `len ≤ cap`, split, commit), not yet an induction over arbitrary
-    operation lists as for the virtio-fs handle table; `write_from(_at)` content on /dev/fuse and
-    the async path (DESIGN §7-F13, property C20) are covered by the differential run only. -/
-theorem fuse_split_header_data_one_record_partial (f a o : FuseW) (w : World) (k : Nat) (hdr data : Bytes)
-    (hnew : f.len = 0) (hin : f.inMem w.mem) (hs : f.splitAt k = .ok (a, o))
-    (hh : hdr.length ≤ k) (hd : data.length ≤ f.cap - k) :
-    (FuseW.commit (FuseW.write a (FuseW.write o w data).w hdr).f (FuseW.write a (FuseW.write o w data).w hdr).w
-          (some (FuseW.write o w data).f)).2.fd = (if (hdr ++ data).isEmpty then w.fd else w.fd ++ [hdr ++ data]) :=
-  (fuse_split_commit f a o w k hdr data hnew hin hs hh hd).2.2.2
+/-! #### FuseDevWriter: any operation list
+
+  `FStart st R base cap` (Fbr.Lemmas.XportFuseThm) = a /dev/fuse reply before the server touched
+  it: one fresh `FuseDevWriter::new` over the buffer `[base, base+cap)` of region `R` (inside
+  memory), no virtio-fs writer, an empty access log, any readers.  `fahead fws` = the addresses of
+  the windows `[base, base+cap)` of all writers of a table; `fwriterIn f w op` / `fplaced s i op` /
+  `fplacedAll s i ops` = the bytes an operation / an operation list appends through fusedev
+  handle `i` (as `placed`/`placedAll`: the first `n` bytes of the source, `n` the growth of `len` =
+  the count reported, `fuse_ops_append_what_they_report`). -/
+
+/-- **FuseDevWriter invariant over ANY operation list** (writes, vectored writes, `write_from(_at)`,
+    `write_all_from` with any scripted file, splits at any offset of any writer — also after
+    partial writes —, commits, failing and refused operations, reader operations in between, in
+    any order): every writer keeps `len ≤ cap` — the `Vec` laid over the borrowed buffer never
+    outgrows its capacity, so it never reallocates and `capacity - len` never underflows —, stays
+    inside the original buffer, the windows of all writers (however split) always PARTITION the
+    original buffer, the capacities add up to its size, every memory write lies inside it, the
+    memory regions keep their sizes, and no virtio-fs writer appears. -/
+theorem fuse_invariant_any_operation_list (st : St) (R base cap : Nat) (ops : List Op) (h : FStart st R base cap) :
+    (∀ f ∈ (exec st ops).fws, f.len ≤ f.cap ∧ f.region = R ∧ base ≤ f.base ∧ f.base + f.cap ≤ base + cap)
+    ∧ (fahead (exec st ops).fws).Perm (segAddrs ⟨R, base, cap⟩)
+    ∧ (((exec st ops).fws.map FuseW.cap).sum = cap)
+    ∧ (∀ a ∈ wrAddrs (exec st ops).w.log, a ∈ segAddrs ⟨R, base, cap⟩)
+    ∧ (∀ x, ((exec st ops).w.mem.get x).length = (st.w.mem.get x).length)
+    ∧ (exec st ops).writers = [] := by
+  have hi := exec_finv ops (fstart_finv h)
+  refine ⟨hi.each, hi.part, ?_, hi.wrin, exec_flen ops (fstart_finv h), hi.nowr⟩
+  rw [← length_fahead, hi.part.length_eq]; simp
+
+/-- … and no operation on a writer with `len ≤ cap` inside memory (every writer of every reachable
+    table, by the theorem above) ends in the "realloc of borrowed buffer" or the "capacity - len
+    underflow" outcome: whatever fails, fails with an ordinary error (no room, the file's error,
+    the documented one-shot assert). -/
+theorem fuse_no_operation_reallocates (f : FuseW) (w : World) (hok : f.ok) (hin : f.inMem w.mem) (e : IoErr) :
+    (∀ data, (FuseW.write f w data).res = .error e → Benign e)
+    ∧ (∀ bufs, (FuseW.writeVectored f w bufs).res = .error e → Benign e)
+    ∧ (∀ src count at_, (FuseW.writeFrom f w src count at_).res = .error e → Benign e)
+    ∧ (∀ src count, (FuseW.writeAllFrom f w src count).res = .error e → Benign e) :=
+  ⟨fun data => fwrite_benign f w data hok, fun bufs => fwriteVectored_benign f w bufs hok,
+   fun src count at_ => fwriteFrom_benign f w src count at_ hok,
+   fun src count => fwriteAllFrom_benign f w src count hok hin⟩
+
+/-- **Buffered appends, any operation list.**  After ANY operation list `pre`, take ANY buffered
+    writer `i` (any half of any split) and run ANY further operation list `ops` that does not
+    split `i` itself (all operations on all other writers, their splits, commits and reader
+    operations interleaved arbitrarily): its buffer is then its old buffer followed by exactly
+    what was appended through it, in operation order; only `len` moved; it is still buffered. -/
+theorem fuse_buffered_writes_append_any_operation_list (st : St) (R base cap : Nat) (pre ops : List Op)
+    (h : FStart st R base cap) (i : Nat) (f0 : FuseW) (hi : (exec st pre).fws[i]? = some f0)
+    (hb : f0.buffered = true) (hns : ∀ k, Op.fs i k ∉ ops) :
+    ∃ ff, (exec (exec st pre) ops).fws[i]? = some ff ∧ ff.buffered = true
+      ∧ ff = { f0 with len := f0.len + (fplacedAll (exec st pre) i ops).length }
+      ∧ ff.slice (exec (exec st pre) ops).w.mem = f0.slice (exec st pre).w.mem ++ fplacedAll (exec st pre) i ops :=
+  fuse_slice_run ops (exec_finv pre (fstart_finv h)) i f0 hi hb hns
+
+/-- What a buffered operation appends is what it reports: `write` the whole buffer (or nothing,
+    refused), `write_vectored` all buffers in order (or nothing), `write_from(_at)` reporting `n` the
+    `n` bytes the file delivered (nothing on error). -/
+theorem fuse_ops_append_what_they_report (f : FuseW) (w : World) (hb : f.buffered = true) (hok : f.ok)
+    (hin : f.inMem w.mem) (h : Nat) :
+    (∀ data n, (FuseW.write f w data).res = .ok n → n = data.length ∧ fwriterIn f w (.fw h data) = data)
+    ∧ (∀ data e, (FuseW.write f w data).res = .error e → fwriterIn f w (.fw h data) = [])
+    ∧ (∀ datas n, (FuseW.writeVectored f w datas).res = .ok n →
+        n = datas.flatten.length ∧ fwriterIn f w (.fv h datas) = datas.flatten)
+    ∧ (∀ datas e, (FuseW.writeVectored f w datas).res = .error e → fwriterIn f w (.fv h datas) = [])
+    ∧ (∀ count at_ sc n, (FuseW.writeFrom f w sc count at_).res = .ok n →
+        fwriterIn f w (.ff h count at_ sc) = patBytes sc.seed (at_.getD sc.pos) n)
+    ∧ (∀ count at_ sc e, (FuseW.writeFrom f w sc count at_).res = .error e → fwriterIn f w (.ff h count at_ sc) = []) :=
+  fwriterIn_reported f w hb hok hin h
+
+/-- **Split header/data writers on /dev/fuse committed together** (any operation list).  Fresh
+    writer, `split_at(k)` for any `k ≤ cap`, then ANY operation list without further splits and
+    commits — any number of `write`/`write_vectored`/`write_from(_at)`/`write_all_from` on the two
+    halves in any interleaving (data first, header first, alternating), fitting or refused, short
+    or failing file reads, reader operations in between —, then `first.commit(Some(second))`:
+    nothing reached the descriptor before the commit, the commit reports the total length, and
+    exactly ONE record reaches the descriptor: (everything appended through the first half) ++
+    (everything appended through the second half) — none if both are empty. -/
+theorem fuse_split_header_data_one_record (st : St) (R base cap : Nat) (h : FStart st R base cap) (k : Nat)
+    (hk : k ≤ cap) (ops : List Op) (hns : ∀ i k', Op.fs i k' ∉ ops) (hnc : ∀ i o, Op.fc i o ∉ ops) :
+    (exec (step st (.fs 0 k)).1 ops).w.fd = st.w.fd
+    ∧ (step (exec (step st (.fs 0 k)).1 ops) (.fc 0 (some 1))).2.res
+        = .ok (fplacedAll (step st (.fs 0 k)).1 0 ops ++ fplacedAll (step st (.fs 0 k)).1 1 ops).length
+    ∧ (step (exec (step st (.fs 0 k)).1 ops) (.fc 0 (some 1))).1.w.fd
+        = (if (fplacedAll (step st (.fs 0 k)).1 0 ops ++ fplacedAll (step st (.fs 0 k)).1 1 ops).isEmpty then st.w.fd
+           else st.w.fd ++ [fplacedAll (step st (.fs 0 k)).1 0 ops ++ fplacedAll (step st (.fs 0 k)).1 1 ops]) :=
+  fuse_split_commit_run h k hk ops hns hnc
 
 /-! ### FileVolatileSlice -/
 
@@ -527,11 +602,38 @@ example : (⟨[⟨1, 10, 3⟩], 0⟩ : IoBufs).available < (patBytes 1 0 4).leng
 example : ∃ a o, (⟨[⟨1, 13, 5⟩, ⟨1, 20, 0⟩, ⟨2, 0, 33⟩], 3⟩ : IoBufs).splitAt 7 = .ok (a, o) :=
   ⟨_, _, rfl⟩
 
-/-- `reads_are_request_bytes_in_order`, `writes_are_concatenation`, `split_writers_concatenate`:
+/-- `writes_are_concatenation`, `split_writers_concatenate`, `no_byte_written_twice`:
     non-overlapping buffers inside their regions (incl. a zero-length one) -/
 example : (addrs exampleStart.writers[0]!.segs).Nodup ∧ WF exampleStart.w.mem exampleStart.writers[0]!.segs
     ∧ ∃ a o, exampleStart.writers[0]!.splitAt 16 = .ok (a, o) ∧ 16 ≤ a.available ∧ 100 ≤ o.available := by
   refine ⟨by decide +kernel, by decide +kernel, _, _, rfl, by decide, by decide⟩
+
+/-- `reads_are_request_bytes_in_order`: readable and writable descriptors share no byte there; and
+    the theorem speaks about something: a `read`, a split, a short `read_to` through a file that
+    takes 2 of the 3 bytes offered, then a read on the split-off half — handle 0 delivered the 3+2
+    bytes in order, handle 1 (created by the split) its first byte -/
+example : (∀ a ∈ readable exampleStart, a ∉ writable exampleStart)
+    ∧ (deliveredAll exampleStart 0 [.rd 0 3, .rs 0 3, .rt 0 3 none ⟨.full, [.n 2], 0, 0, [], []⟩, .rd 1 1]).length = 5
+    ∧ (deliveredAll (exec exampleStart [.rd 0 3, .rs 0 3]) 1 [.rt 0 3 none ⟨.full, [.n 2], 0, 0, [], []⟩, .rd 1 1]).length = 1 := by
+  refine ⟨by decide +kernel, by decide +kernel, by decide +kernel⟩
+
+/-- `writes_are_concatenation` / `split_writers_concatenate`: a split writer, data through the
+    second half from a file that delivers 5 of 8 bytes, a header through the first half, more
+    data: what was stored through each half, in operation order -/
+example :
+    placedAll (exec exampleStart [.ws 0 4]) 0
+        [.wf 1 8 none ⟨.full, [.n 5], 3, 0, [], []⟩, .wr 0 [1, 2, 3], .wr 1 [9], .wr 0 [4, 5]] = [1, 2, 3]
+    ∧ placedAll (exec exampleStart [.ws 0 4]) 1
+        [.wf 1 8 none ⟨.full, [.n 5], 3, 0, [], []⟩, .wr 0 [1, 2, 3], .wr 1 [9], .wr 0 [4, 5]]
+        = patBytes 3 0 5 ++ [9] := by
+  refine ⟨by decide +kernel, by decide +kernel⟩
+
+/-- the fusedev theorems: a start state, and a header/data scenario with interleaved writes — one
+    record `header ++ data` at commit, nothing before -/
+example : FStart exampleFuse 2 64 64
+    ∧ (step (exec (step exampleFuse (.fs 0 16)).1 [.fw 1 [1, 2, 3], .fw 0 [8, 9], .rd 0 4, .fw 1 [4], .fw 0 [7]])
+        (.fc 0 (some 1))).1.w.fd = [[8, 9, 7, 1, 2, 3, 4]] := by
+  refine ⟨⟨rfl, rfl, by decide +kernel, rfl⟩, by decide +kernel⟩
 
 /-- FuseDevWriter: a fresh writer over a 64-byte window split at 16 -/
 example : (FuseW.new 2 64 64).ok ∧ (FuseW.new 2 64 64).len = 0
